@@ -98,6 +98,16 @@ impl Reader {
         block_check: BlockCheck,
         in_memory: bool,
     ) -> Result<(Arc<dyn Source>, Region)> {
+        // Offset and size often come from the (maybe corrupted) data we are reading.
+        match offset.into_u64().checked_add(size.into_u64()) {
+            Some(end) if end <= self.region.size().into_u64() => {}
+            _ => {
+                return Err(format_error!(&format!(
+                    "Out of reader. {offset} + {size} > {}",
+                    self.region.size()
+                )))
+            }
+        }
         let region = self.region.cut_rel(offset, size);
         Arc::clone(&self.source).cut(region, block_check, in_memory)
     }
